@@ -31,6 +31,8 @@ FILES = ['/app/main.py', '/app/pkg/<b id=simx>.py', '/app/ünï.py', '/app/a&b.p
          '{clastic}/application.py', '{clastic}/_clastic_assets/common.css',
          # names under the library directories that need escaping
          '{stdlib}/site-packages/<b id=simx>&.py', '{werkzeug}/plug&in<b id=simx>.py', "{clastic}/it's \"quoted\".py", '{stdlib}/ünï/mod.py',
+         # the project's own files in directories whose NAME merely begins like a library directory's
+         '{stdlib}-extras/app.py', '{stdlib}2/tool.py', '{werkzeug}_contrib/ext.py', '{clastic}_site/wsgi.py', '{stdlib}.bak/os.py',
          # several spellings of one file
          '/app/pkg/run.py', '/app/pkg/./run.py', '/app/pkg//run.py', '/app/pkg/sub/../run.py', 'run.py', '{cwd}/run.py']
 
